@@ -134,7 +134,9 @@ impl<P: Payload + Clone> Recorder<P> {
             DROP_LOG.with(|l| l.borrow_mut().clear());
         }
         let d = self.sim.apply(c);
-        let mut ev = json!({"op": c.op, "a": c.a, "b": c.b, "v": c.v, "checked": c.checked, "res": d.class, "new": d.new, "prevcap": prevcap});
+        // the payload token as it can be read back (a payload type may not preserve every token, e.g. None)
+        let veff = if ["new", "append_value", "set"].contains(&c.op.as_str()) { P::make(c.v).tok() } else { c.v };
+        let mut ev = json!({"op": c.op, "a": c.a, "b": c.b, "v": veff, "checked": c.checked, "res": d.class, "new": d.new, "prevcap": prevcap});
         if P::TRACKED {
             let log: Vec<u64> = DROP_LOG.with(|l| std::mem::take(&mut *l.borrow_mut()));
             let mut drops: Vec<usize> = pre.iter().filter(|(_, ser)| log.contains(ser)).map(|(s, _)| *s).collect();
@@ -460,8 +462,15 @@ pub fn weights(mix: &str) -> Vec<(&'static str, u32)> {
 }
 
 pub fn run(args: &[String]) -> i32 {
-    if args.iter().any(|a| a == "--tracked-payload") {
+    let payload = args.iter().position(|a| a == "--payload").and_then(|i| args.get(i + 1)).cloned().unwrap_or_default();
+    if args.iter().any(|a| a == "--tracked-payload") || payload == "tracked" {
         run_with::<Tracked>(args)
+    } else if payload == "string" {
+        run_with::<String>(args)
+    } else if payload == "rich" {
+        run_with::<Rich>(args)
+    } else if payload == "option" {
+        run_with::<Option<u32>>(args)
     } else {
         run_with::<u32>(args)
     }
